@@ -3,7 +3,7 @@
     Model: Model/ShellAuth.v (shell.Executor.validateAndAcquire and the
     session counter; bcrypt is the oracle [pw_ok]). *)
 From Coq Require Import String List NArith ZArith Bool.
-From MM Require Import Lib.HStr Model.ShellAuth Proofs.ShellAuthProofs Generated.C25.
+From MM Require Import Lib.HStr Model.ShellAuth Proofs.ShellAuthProofs Proofs.ShellHandlerProofs Generated.C25.
 Import ListNotations.
 Local Open Scope N_scope.
 
@@ -58,6 +58,26 @@ Theorem C25_grant_only_below_bound :
 Proof. exact grant_only_below_bound. Qed.
 Print Assumptions C25_grant_only_below_bound.
 
+(** The handler's discipline (a stream holds at most one session, releases
+    only what it holds, once; a failed start releases at once): for every
+    interleaving of metadata / start-failure / close events of any number K
+    of streams, starting with no session, the counter equals the number of
+    streams that hold a session, so at most max streams hold one. *)
+Theorem C25_live_sessions_never_exceed_maximum :
+  forall (max : Z) (K : nat) (evs : list (nat * event * bool)) (n : Z) (st : streams),
+    hrun max 0 (repeat SIdle K) evs = (n, st) ->
+    held st = n /\ (0 <= n)%Z /\ ((max > 0)%Z -> (held st <= max)%Z) /\ length st = K.
+Proof. exact handler_sessions_are_live_streams. Qed.
+Print Assumptions C25_live_sessions_never_exceed_maximum.
+
+(** Why the discipline matters: with bare calls, a release by a client that
+    holds nothing frees a slot that is in use (the counter floors at 0 but
+    cannot know whose slot it was). *)
+Theorem C25_bare_release_needs_discipline :
+  run 1 0 [OAcquire; ORelease; OAcquire] = [(1, true); (0, true); (1, true)]%Z.
+Proof. exact spurious_release_frees_a_used_slot. Qed.
+Print Assumptions C25_bare_release_needs_discipline.
+
 (** Concrete requests: every verdict occurs (non-vacuity). *)
 Theorem C25_examples :
   authorize true cfg (mkMeta (lit "ls") [lit "-la"; lit "sub/dir"] (lit "pw")) 1 = (VGranted, 2%Z) /\
@@ -94,6 +114,9 @@ Theorem C25_source_facts :
   gen_release_one_critical_section = true /\
   gen_release_condition = "e.sessions>0"%string /\
   gen_session_counter_writers = ["Executor.AcquireSession"; "Executor.ReleaseSession"]%string /\
+  gen_handler_release_sites = [("Handler.handleMetadata", 1); ("Handler.releaseSession", 2)]%string /\
+  gen_release_guarded_by_released_flag = true /\
+  gen_start_failure_releases_before_session_recorded = true /\
   forallb snd gen_process_creation_sites = true /\
   map fst gen_process_creation_sites = ["Executor.NewPTYSession"; "Executor.NewSession"]%string.
 Proof. repeat split; vm_compute; reflexivity. Qed.
